@@ -1,4 +1,8 @@
 import CoxeterVerif.Lemmas.Steiner
+import CoxeterVerif.Lemmas.SteinerTurn
+import CoxeterVerif.Lemmas.SteinerDescriptors
+import CoxeterVerif.Lemmas.SteinerBoxMeasure
+import CoxeterVerif.Lemmas.SteinerPrismMeasure
 /-!
   # C11 — rounded shapes obey the Steiner formulas; curvature descriptors match their definitions
 
@@ -391,5 +395,555 @@ example :
     SpheroPolygon.area c11_squareCw (-4) (1/2)
       = SteinerSpec.steinerArea2 4 (Polygon.perimeter c11_squareCw) (1/2) := by
   rw [spheropolygon_area_steiner _ _ _ (by norm_num)]; norm_num
+
+
+/-! ## Deepening round
+
+### (1) the planar Steiner clause from the decomposition, with `Σ exterior angles = 2π` PROVED -/
+
+/-- **the exterior (turning) angles of a strictly convex counter-clockwise polygon add up to `2π`**
+— for every number of vertices `≥ 3`; `allCcw` is the decidable check the driver evaluates exactly
+over ℚ on the implementation's stored vertices. -/
+theorem polygon_exterior_angles_sum (vs : List (ℝ × ℝ)) (h3 : 3 ≤ vs.length)
+    (h : SteinerSpec.allCcw vs = true) : SteinerSpec.turnSum vs = 2 * Real.pi :=
+  turnSum_of_allCcw vs h3 h
+
+/-- **planar Steiner formulas from the decomposition** polygon ∪ edge rectangles ∪ vertex sectors:
+the rectangles contribute `P r`, the sectors (opening angle = exterior angle) one full disc. -/
+theorem planar_steiner_decomposition (A r : ℝ) (vs : List (ℝ × ℝ)) (h3 : 3 ≤ vs.length)
+    (h : SteinerSpec.allCcw vs = true) :
+    SteinerSpec.parallelArea2 A vs r = SteinerSpec.steinerArea2 A (SteinerSpec.perimeter2 vs) r ∧
+    SteinerSpec.parallelPerimeter2 vs r = SteinerSpec.steinerPerimeter2 (SteinerSpec.perimeter2 vs) r := by
+  have ht := polygon_exterior_angles_sum vs h3 h
+  unfold SteinerSpec.turnSum at ht
+  unfold SteinerSpec.parallelArea2 SteinerSpec.parallelPerimeter2 SteinerSpec.steinerArea2
+    SteinerSpec.steinerPerimeter2 SteinerSpec.perimeter2
+  rw [stripSum_eq, sectorSum_eq, arcSum_eq, ht]
+  simp only [Scalar.lit, Scalar.ofNat_real, Scalar.pi_real]
+  constructor <;> push_cast <;> ring
+
+/-- the planar polygon `vs` as the model stores it (`z = 0`) -/
+def c11_embed (vs : List (ℝ × ℝ)) : List (V3 ℝ) := vs.map fun p => ⟨p.1, p.2, 0⟩
+
+theorem c11_zipWith_pathLen : ∀ (t : List (ℝ × ℝ)) (a x : ℝ × ℝ),
+    (List.zipWith (fun w v : V3 ℝ => V3.norm (w - v)) (c11_embed (t ++ [x])) (c11_embed (a :: t))).sum
+      = SteinerSpec.pathLen (a :: t ++ [x])
+  | [], a, x => by
+    simp [c11_embed, SteinerSpec.pathLen, SteinerSpec.norm2, SteinerSpec.dot2, SteinerSpec.sub2, V3.norm,
+      V3.normSq, V3.dot]
+  | b :: t, a, x => by
+    have ih := c11_zipWith_pathLen t b x
+    simp only [c11_embed, List.map_cons, List.cons_append, List.zipWith_cons_cons, List.sum_cons,
+      SteinerSpec.pathLen] at ih ⊢
+    rw [ih]
+    simp [SteinerSpec.norm2, SteinerSpec.dot2, SteinerSpec.sub2, V3.norm, V3.normSq, V3.dot]
+
+/-- the model's `Polygon.perimeter` of the embedded polygon is the spec's planar perimeter -/
+theorem c11_perimeter_embed (vs : List (ℝ × ℝ)) :
+    Polygon.perimeter (c11_embed vs) = SteinerSpec.perimeter2 vs := by
+  unfold Polygon.perimeter SteinerSpec.perimeter2 SteinerSpec.closeEdges
+  cases vs with
+  | nil => simp [c11_embed, roll, SteinerSpec.pathLen]
+  | cons a t =>
+    rw [Scalar.sum_real]
+    have : roll (c11_embed (a :: t)) = c11_embed (t ++ [a]) := by simp [c11_embed, roll]
+    rw [this]
+    simpa using c11_zipWith_pathLen t a a
+
+/-- **the model's spheropolygon area and perimeter ARE the sums of the pieces of the parallel body**
+for every strictly convex counter-clockwise core in the plane (`a` = the core's signed area) -/
+theorem spheropolygon_decomposition (vs : List (ℝ × ℝ)) (a r : ℝ) (hr : 0 ≤ r) (h3 : 3 ≤ vs.length)
+    (h : SteinerSpec.allCcw vs = true) :
+    SpheroPolygon.area (c11_embed vs) a r = SteinerSpec.parallelArea2 |a| vs r ∧
+    SpheroPolygon.perimeter (c11_embed vs) r = SteinerSpec.parallelPerimeter2 vs r := by
+  obtain ⟨h1, h2⟩ := planar_steiner_decomposition |a| r vs h3 h
+  rw [h1, h2, spheropolygon_area_steiner _ _ _ hr, spheropolygon_perimeter, c11_perimeter_embed]
+  exact ⟨rfl, rfl⟩
+
+def c11_unitSquare : List (ℝ × ℝ) := [(0, 0), (1, 0), (1, 1), (0, 1)]
+
+theorem c11_unitSquare_ccw : SteinerSpec.allCcw c11_unitSquare = true := by
+  simp [c11_unitSquare, SteinerSpec.allCcw, SteinerSpec.pairsAll, SteinerSpec.ccw, SteinerSpec.cross2,
+    SteinerSpec.sub2]
+
+example : SteinerSpec.turnSum c11_unitSquare = 2 * Real.pi :=
+  polygon_exterior_angles_sum _ (by simp [c11_unitSquare]) c11_unitSquare_ccw
+
+example (r : ℝ) (hr : 0 ≤ r) :
+    SpheroPolygon.area (c11_embed c11_unitSquare) 1 r = SteinerSpec.parallelArea2 |1| c11_unitSquare r :=
+  (spheropolygon_decomposition _ 1 r hr (by simp [c11_unitSquare]) c11_unitSquare_ccw).1
+
+/-! ### (1') Steiner's formula for a rectangle and a box as a theorem about LEBESGUE MEASURE
+
+`Steiner.BoxMeasure.parallel2/3 K r` is the Minkowski sum of `K` with the closed Euclidean disc/ball
+of radius `r`; `MeasureTheory.volume` is Lebesgue measure on `ℝ × ℝ` / `ℝ × ℝ × ℝ`. -/
+
+open Steiner.BoxMeasure in
+/-- **planar Steiner formula, measured**: the model's `ConvexSpheropolygon.area` of the rectangle
+`[0,a]×[0,b]` (core area `ab`) is the Lebesgue measure of its `r`-neighbourhood. -/
+theorem steiner_rect_measure (a b r : ℝ) (ha : 0 ≤ a) (hb : 0 ≤ b) (hr : 0 ≤ r) :
+    MeasureTheory.volume (parallel2 (rect a b) r)
+      = ENNReal.ofReal (SpheroPolygon.area (c11_embed [(0, 0), (a, 0), (a, b), (0, b)]) (a * b) r) := by
+  rw [volume_parallel_rect a b r ha hb hr, spheropolygon_area_steiner _ _ _ hr, c11_perimeter_embed]
+  congr 1
+  have hP : SteinerSpec.perimeter2 [(0, 0), (a, 0), (a, b), (0, b)] = 2 * (a + b) := by
+    simp only [SteinerSpec.perimeter2, SteinerSpec.closeEdges, List.take, List.cons_append, List.nil_append,
+      SteinerSpec.pathLen, SteinerSpec.norm2, SteinerSpec.dot2, SteinerSpec.sub2, Scalar.sqrt_real,
+      Scalar.lit, Scalar.ofNat_real]
+    have e1 : Real.sqrt ((a - 0) * (a - 0) + (0 - 0) * (0 - 0)) = a := by
+      rw [show (a - 0) * (a - 0) + (0 - 0) * (0 - 0) = a ^ 2 by ring]; exact Real.sqrt_sq ha
+    have e2 : Real.sqrt ((a - a) * (a - a) + (b - 0) * (b - 0)) = b := by
+      rw [show (a - a) * (a - a) + (b - 0) * (b - 0) = b ^ 2 by ring]; exact Real.sqrt_sq hb
+    have e3 : Real.sqrt ((0 - a) * (0 - a) + (b - b) * (b - b)) = a := by
+      rw [show (0 - a) * (0 - a) + (b - b) * (b - b) = a ^ 2 by ring]; exact Real.sqrt_sq ha
+    have e4 : Real.sqrt ((0 - 0) * (0 - 0) + (0 - b) * (0 - b)) = b := by
+      rw [show (0 - 0) * (0 - 0) + (0 - b) * (0 - b) = b ^ 2 by ring]; exact Real.sqrt_sq hb
+    rw [e1, e2, e3, e4]; push_cast; ring
+  rw [hP, abs_of_nonneg (mul_nonneg ha hb)]
+  unfold SteinerSpec.steinerArea2
+  simp only [Scalar.pi_real]; ring
+
+/-- the loop data of a box `a × b × c`: four edges of each length, all dihedral angles `π/2` -/
+def c11_boxEdges (a b c : ℝ) : List (ℝ × ℝ) :=
+  List.replicate 4 (a, Real.pi / 2) ++ List.replicate 4 (b, Real.pi / 2) ++ List.replicate 4 (c, Real.pi / 2)
+
+theorem c11_boxEdges_sum (a b c : ℝ) : edgeSumR (c11_boxEdges a b c) = 2 * Real.pi * (a + b + c) := by
+  simp only [c11_boxEdges, edgeSumR, List.replicate, List.map_cons, List.map_nil, List.sum_cons,
+    List.sum_nil, List.cons_append, List.nil_append]
+  ring
+
+open Steiner.BoxMeasure in
+/-- **spatial Steiner formula, measured**: the model's `ConvexSpheropolyhedron.volume` on the core data
+of the box `[0,a]×[0,b]×[0,c]` is the Lebesgue measure of its `r`-neighbourhood. -/
+theorem steiner_box_measure (a b c r : ℝ) (ha : 0 ≤ a) (hb : 0 ≤ b) (hc : 0 ≤ c) (hr : 0 ≤ r) :
+    MeasureTheory.volume (parallel3 (box a b c) r)
+      = ENNReal.ofReal (SpheroPolyhedron.volumeOf (a * b * c) (2 * (a * b + b * c + c * a)) r
+          (c11_boxEdges a b c)) := by
+  rw [volume_parallel_box a b c r ha hb hc hr, volumeOf_eq, c11_boxEdges_sum]
+  congr 1; ring
+
+/-- the full core record of the box `[0,a]×[0,b]×[0,c]` as the implementation builds it for a cube
+(vertex order `itertools.product`, the six outward normals, the twelve face intersections) -/
+def c11_boxCore (a b c : ℝ) : Core ℝ where
+  vertices := [⟨0,0,0⟩, ⟨0,0,c⟩, ⟨0,b,0⟩, ⟨0,b,c⟩, ⟨a,0,0⟩, ⟨a,0,c⟩, ⟨a,b,0⟩, ⟨a,b,c⟩]
+  normals := [⟨0,0,-1⟩, ⟨0,-1,0⟩, ⟨1,0,0⟩, ⟨-1,0,0⟩, ⟨0,1,0⟩, ⟨0,0,1⟩]
+  fi := [⟨0,1,4,0⟩, ⟨0,2,4,6⟩, ⟨0,3,0,2⟩, ⟨0,4,6,2⟩, ⟨1,2,4,5⟩, ⟨1,3,0,1⟩, ⟨1,5,5,1⟩, ⟨2,4,6,7⟩,
+         ⟨2,5,7,5⟩, ⟨3,4,2,3⟩, ⟨3,5,3,1⟩, ⟨4,5,3,7⟩]
+  volume := a * b * c
+  area := 2 * (a * b + b * c + c * a)
+
+theorem c11_boxCore_wf (a b c : ℝ) : (c11_boxCore a b c).WellFormed := by
+  intro f hf
+  simp only [c11_boxCore, List.mem_cons, List.not_mem_nil, or_false] at hf
+  rcases hf with rfl | rfl | rfl | rfl | rfl | rfl | rfl | rfl | rfl | rfl | rfl | rfl <;>
+    simp [c11_boxCore]
+
+/-- the `(L, φ)` the loops of `volume` / `surface_area` / `mean_curvature` see on that core, in loop order -/
+def c11_boxLoop (a b c : ℝ) : List (ℝ × ℝ) :=
+  [(a, Real.pi / 2), (b, Real.pi / 2), (b, Real.pi / 2), (a, Real.pi / 2), (c, Real.pi / 2), (c, Real.pi / 2),
+   (a, Real.pi / 2), (c, Real.pi / 2), (b, Real.pi / 2), (c, Real.pi / 2), (b, Real.pi / 2), (a, Real.pi / 2)]
+
+theorem c11_boxCore_edgeTerms (a b c : ℝ) (ha : 0 ≤ a) (hb : 0 ≤ b) (hc : 0 ≤ c) :
+    CP.edgeTerms (c11_boxCore a b c) = .ok (c11_boxLoop a b c) := by
+  rw [edgeTerms_ok _ (c11_boxCore_wf a b c)]
+  have sa : Real.sqrt (a * a) = a := Real.sqrt_mul_self ha
+  have sb : Real.sqrt (b * b) = b := Real.sqrt_mul_self hb
+  have sc : Real.sqrt (c * c) = c := Real.sqrt_mul_self hc
+  simp only [c11_boxCore, Core.edgeOf, c11_boxLoop, List.map_cons, List.map_nil,
+    dihedral_arccos, V3.norm, V3.normSq, V3.dot, V3.sub_x, V3.sub_y, V3.sub_z, Scalar.sqrt_real]
+  norm_num [List.getD, Real.arccos_zero, sa, sb, sc]
+  ring
+
+open Steiner.BoxMeasure in
+/-- **the whole model pipeline on a box is the measured parallel body**: `_find_neighbors`, the
+neighbour test of `get_dihedral`, `acos(clip(−n₁·n₂))`, the edge lengths and the three-term sum of
+`ConvexSpheropolyhedron.volume`, run on the core record of `[0,a]×[0,b]×[0,c]`, return a number whose
+`ENNReal.ofReal` is the Lebesgue measure of the `r`-neighbourhood of the box. -/
+theorem steiner_box_measure_core (a b c r : ℝ) (ha : 0 ≤ a) (hb : 0 ≤ b) (hc : 0 ≤ c) (hr : 0 ≤ r) :
+    ∃ v, SpheroPolyhedron.volume (c11_boxCore a b c) r = .ok v ∧
+      MeasureTheory.volume (parallel3 (box a b c) r) = ENNReal.ofReal v := by
+  refine ⟨SpheroPolyhedron.volumeOf (a * b * c) (2 * (a * b + b * c + c * a)) r (c11_boxLoop a b c), ?_, ?_⟩
+  · unfold SpheroPolyhedron.volume
+    rw [c11_boxCore_edgeTerms a b c ha hb hc]; rfl
+  · rw [volume_parallel_box a b c r ha hb hc hr, volumeOf_eq]
+    congr 1
+    simp only [c11_boxLoop, edgeSumR, List.map_cons, List.map_nil, List.sum_cons, List.sum_nil]
+    ring
+
+/-- for a box the trusted `H = ½ Σ L θ` is what the measured Steiner polynomial contains:
+`M = (a + b + c)/4`, i.e. `H = 4πM = π (a + b + c)` is the `r²` coefficient of the measured volume -/
+theorem box_mean_curvature (a b c : ℝ) : CP.meanCurvatureOf (c11_boxEdges a b c) = (a + b + c) / 4 := by
+  rw [meanCurvatureOf_eq, c11_boxEdges_sum]
+  have := pi_ne_zero
+  field_simp; ring
+
+/-- the loop data of a right prism of height `h` over a polygon whose edges have lengths `L_i` and
+whose vertices have exterior angles `θ_i` (`base = [(L_i, θ_i)]`): one vertical edge per vertex
+(length `h`, dihedral `π − θ_i`), and every base edge twice (top and bottom, dihedral `π/2`) -/
+def c11_prismEdges (h : ℝ) (base : List (ℝ × ℝ)) : List (ℝ × ℝ) :=
+  base.map (fun e => (h, Real.pi - e.2)) ++ base.map (fun e => (e.1, Real.pi / 2))
+    ++ base.map (fun e => (e.1, Real.pi / 2))
+
+theorem c11_prismEdges_sum (h : ℝ) (base : List (ℝ × ℝ)) :
+    edgeSumR (c11_prismEdges h base)
+      = h * (base.map Prod.snd).sum + Real.pi * (base.map Prod.fst).sum := by
+  unfold c11_prismEdges edgeSumR
+  simp only [List.map_append, List.sum_append, List.map_map]
+  induction base with
+  | nil => simp
+  | cons e t ih =>
+    simp only [List.map_cons, List.sum_cons, Function.comp] at ih ⊢
+    linarith
+
+open Steiner.BoxMeasure in
+/-- **spatial Steiner formula for every right prism, relative to the planar formula of its base**:
+if the planar parallel bodies of `K` (sublevel sets of the squared distance `g`) have area
+`A + Pρ + πρ²`, and the base polygon's exterior angles add up to `2π`
+(`polygon_exterior_angles_sum`) and its edge lengths to `P`, then the model's
+`ConvexSpheropolyhedron.volume` on the prism's core data (`V = hA`, `S = 2A + hP`, the prism's
+edge list) IS the Lebesgue measure of the `r`-neighbourhood of `[0,h] × K`.  In particular the
+trusted `H = ½ Σ L·θ` is the measured `r²` coefficient for every such prism. -/
+theorem steiner_prism_measure (K : Set (ℝ × ℝ)) (g : ℝ × ℝ → ℝ) (hg : Measurable g) (hg0 : ∀ q, 0 ≤ g q)
+    (hK : ∀ ρ, 0 ≤ ρ → parallel2 K ρ = {q | g q ≤ ρ ^ 2})
+    (A P : ℝ) (hA : 0 ≤ A) (hP : 0 ≤ P)
+    (hSt : ∀ ρ, 0 ≤ ρ → MeasureTheory.volume (parallel2 K ρ) = ENNReal.ofReal (A + P * ρ + Real.pi * ρ ^ 2))
+    (base : List (ℝ × ℝ)) (hθ : (base.map Prod.snd).sum = 2 * Real.pi) (hL : (base.map Prod.fst).sum = P)
+    (h r : ℝ) (hh : 0 ≤ h) (hr : 0 ≤ r) :
+    MeasureTheory.volume (parallel3 (prism h K) r)
+      = ENNReal.ofReal (SpheroPolyhedron.volumeOf (h * A) (2 * A + h * P) r (c11_prismEdges h base)) := by
+  rw [volume_parallel_prism K g hg hg0 hK A P hA hP hSt h r hh hr, volumeOf_eq, c11_prismEdges_sum, hθ, hL]
+  congr 1; ring
+
+open Steiner.BoxMeasure in
+/-- the hypotheses of `steiner_prism_measure` are satisfiable: the rectangle `[0,a]×[0,b]` as base -/
+example (a b h r : ℝ) (ha : 0 ≤ a) (hb : 0 ≤ b) (hh : 0 ≤ h) (hr : 0 ≤ r) :
+    MeasureTheory.volume (parallel3 (prism h (rect a b)) r)
+      = ENNReal.ofReal (SpheroPolyhedron.volumeOf (h * (a * b)) (2 * (a * b) + h * (2 * (a + b))) r
+          (c11_prismEdges h [(a, Real.pi / 2), (b, Real.pi / 2), (a, Real.pi / 2), (b, Real.pi / 2)])) :=
+  steiner_prism_measure (rect a b) (fun q => dist1 a q.1 ^ 2 + dist1 b q.2 ^ 2)
+    ((((measurable_dist1 a).comp measurable_fst).pow_const 2).add
+      (((measurable_dist1 b).comp measurable_snd).pow_const 2))
+    (fun q => add_nonneg (sq_nonneg _) (sq_nonneg _))
+    (fun ρ _ => parallel2_rect a b ρ ha hb) (a * b) (2 * (a + b)) (mul_nonneg ha hb) (by positivity)
+    (fun ρ hρ => by rw [volume_parallel_rect a b ρ ha hb hρ])
+    _ (by simp; ring) (by simp; ring) h r hh hr
+
+/-- Steiner's area polynomial is the derivative in `r` of the volume polynomial (and the planar
+perimeter that of the planar area) — the surface clause follows the volume clause -/
+theorem steiner_area_is_derivative (V S H A P r : ℝ) :
+    HasDerivAt (fun t => SteinerSpec.steinerVolume V S H t) (SteinerSpec.steinerArea S H r) r ∧
+    HasDerivAt (fun t => SteinerSpec.steinerArea2 A P t) (SteinerSpec.steinerPerimeter2 P r) r := by
+  have h1 : HasDerivAt (fun t : ℝ => t) 1 r := hasDerivAt_id r
+  have h2 := h1.mul h1
+  have h3 := h2.mul h1
+  constructor
+  · have := (((hasDerivAt_const r V).add (h1.const_mul S)).add (h2.const_mul H)).add
+      (h3.const_mul (4 * Real.pi / 3))
+    refine (this.congr_of_eventuallyEq (Filter.Eventually.of_forall fun t => ?_)).congr_deriv ?_
+    · simp only [SteinerSpec.steinerVolume, Scalar.lit, Scalar.ofNat_real, Scalar.pi_real, Pi.add_apply,
+        Pi.mul_apply]
+      push_cast; ring
+    · simp only [SteinerSpec.steinerArea, Scalar.lit, Scalar.ofNat_real, Scalar.pi_real, Pi.mul_apply]
+      push_cast; ring
+  · have := ((hasDerivAt_const r A).add (h1.const_mul P)).add (h2.const_mul Real.pi)
+    refine (this.congr_of_eventuallyEq (Filter.Eventually.of_forall fun t => ?_)).congr_deriv ?_
+    · simp only [SteinerSpec.steinerArea2, Scalar.pi_real, Pi.add_apply, Pi.mul_apply]
+    · simp only [SteinerSpec.steinerPerimeter2, Scalar.lit, Scalar.ofNat_real, Scalar.pi_real]
+      push_cast; ring
+
+/-! ### (1'') the vertex pieces of the spatial parallel body add up to one ball -/
+
+/-- **the exterior solid angles (angular defects `2π − Σ face angles`) of a convex polytope add up to
+`4π`** — from the exterior-angle theorem for every face (each a strictly convex polygon in its own
+plane) and Euler's formula on the counts, both decidable checks the driver runs on the
+implementation's own faces.  (Trusted: Girard — the exterior solid angle IS the angular defect.) -/
+theorem vertex_caps_sum (nV : Nat) (faces : List (List (ℝ × ℝ)))
+    (hf : ∀ f ∈ faces, 3 ≤ f.length ∧ SteinerSpec.allCcw f = true)
+    (he : SteinerSpec.eulerOk nV (faces.map List.length) = true) :
+    SteinerSpec.capAngleSum nV faces = 4 * Real.pi := capAngleSum_eq nV faces hf he
+
+theorem c11_wedgeSums (r : ℝ) : ∀ es : List (ℝ × ℝ),
+    SteinerSpec.wedgeVolumeSum r es = r * r / 2 * edgeSumR es ∧
+    SteinerSpec.wedgeAreaSum r es = r * edgeSumR es
+  | [] => by simp [SteinerSpec.wedgeVolumeSum, SteinerSpec.wedgeAreaSum, edgeSumR]
+  | e :: es => by
+    obtain ⟨h1, h2⟩ := c11_wedgeSums r es
+    simp only [SteinerSpec.wedgeVolumeSum, SteinerSpec.wedgeAreaSum, h1, h2, SteinerSpec.wedgeVolume,
+      SteinerSpec.wedgeArea, SteinerSpec.sectorArea, SteinerSpec.arcLength, SteinerSpec.exterior, edgeSumR,
+      List.map_cons, List.sum_cons, Scalar.lit, Scalar.ofNat_real, Scalar.pi_real]
+    constructor <;> push_cast <;> ring
+
+/-- **spatial Steiner formulas from the decomposition** core ∪ face slabs ∪ edge wedges ∪ vertex
+pieces, and the model's `ConvexSpheropolyhedron.volume` / `surface_area` ARE those sums: the wedges
+give `H r²` with `H = ½ Σ L θ`, the vertex pieces one full ball (`vertex_caps_sum`). -/
+theorem spatial_steiner_decomposition (V S r : ℝ) (es : List (ℝ × ℝ)) (nV : Nat)
+    (faces : List (List (ℝ × ℝ))) (hf : ∀ f ∈ faces, 3 ≤ f.length ∧ SteinerSpec.allCcw f = true)
+    (he : SteinerSpec.eulerOk nV (faces.map List.length) = true) :
+    SteinerSpec.parallelVolume3 V S es nV faces r
+        = SteinerSpec.steinerVolume V S (SteinerSpec.integratedMeanCurvature es) r ∧
+    SteinerSpec.parallelArea3 S es nV faces r
+        = SteinerSpec.steinerArea S (SteinerSpec.integratedMeanCurvature es) r ∧
+    SpheroPolyhedron.volumeOf V S r es = SteinerSpec.parallelVolume3 V S es nV faces r ∧
+    SpheroPolyhedron.surfaceAreaOf S r es = SteinerSpec.parallelArea3 S es nV faces r := by
+  have hc := vertex_caps_sum nV faces hf he
+  obtain ⟨w1, w2⟩ := c11_wedgeSums r es
+  have hV : SteinerSpec.parallelVolume3 V S es nV faces r
+      = SteinerSpec.steinerVolume V S (SteinerSpec.integratedMeanCurvature es) r := by
+    unfold SteinerSpec.parallelVolume3 SteinerSpec.capVolume SteinerSpec.steinerVolume
+      SteinerSpec.integratedMeanCurvature
+    rw [hc, w1, spec_edgeSum_eq]
+    simp only [Scalar.lit, Scalar.ofNat_real, Scalar.pi_real]
+    push_cast; ring
+  have hA : SteinerSpec.parallelArea3 S es nV faces r
+      = SteinerSpec.steinerArea S (SteinerSpec.integratedMeanCurvature es) r := by
+    unfold SteinerSpec.parallelArea3 SteinerSpec.capArea SteinerSpec.steinerArea
+      SteinerSpec.integratedMeanCurvature
+    rw [hc, w2, spec_edgeSum_eq]
+    simp only [Scalar.lit, Scalar.ofNat_real, Scalar.pi_real]
+    push_cast; ring
+  obtain ⟨c1, c2⟩ := sphero_steiner_classical V S r es
+  exact ⟨hV, hA, by rw [c1, hV], by rw [c2, hA]⟩
+
+/-- non-vacuity: the six unit-square faces and eight vertices of a cube -/
+example : SteinerSpec.capAngleSum 8 (List.replicate 6 c11_unitSquare) = 4 * Real.pi :=
+  vertex_caps_sum 8 _ (by
+    intro f hf
+    rw [List.eq_of_mem_replicate hf]
+    exact ⟨by simp [c11_unitSquare], c11_unitSquare_ccw⟩) (by decide)
+
+/-! ### (2) the dihedral angle without `acos` -/
+
+/-- `atan2(|n₁×n₂|, −n₁·n₂)` of ANY non-zero outward normals is the spec's dihedral angle: the
+harness' independent oracle (exact rational facet normals, no normalisation, no `acos`) computes
+the angle of `dihedral_def` -/
+theorem dihedral_atan2_def (n1 n2 : V3 ℝ) (h1 : V3.norm n1 ≠ 0) (h2 : V3.norm n2 ≠ 0) :
+    SteinerSpec.dihedralAtan2 n1 n2 = SteinerSpec.dihedral n1 n2 :=
+  dihedralAtan2_eq n1 n2 h1 h2
+
+/-- for unit normals the code's `acos` form and the `atan2` form agree -/
+theorem dihedral_code_eq_atan2 (n1 n2 : V3 ℝ) (h1 : V3.norm n1 = 1) (h2 : V3.norm n2 = 1) :
+    CP.dihedralAngle n1 n2 = SteinerSpec.dihedralAtan2 n1 n2 := by
+  rw [dihedral_def n1 n2 h1 h2, dihedral_atan2_def n1 n2 (by rw [h1]; norm_num) (by rw [h2]; norm_num)]
+
+example : SteinerSpec.dihedralAtan2 (⟨1, 0, 0⟩ : V3 ℝ) ⟨0, 1, 0⟩ = SteinerSpec.dihedral ⟨1, 0, 0⟩ ⟨0, 1, 0⟩ :=
+  dihedral_atan2_def _ _ (by simp [V3.norm, V3.normSq, V3.dot]) (by simp [V3.norm, V3.normSq, V3.dot])
+
+/-! ### (3) descriptors: similarity invariance; `iq ≤ 1` where elementary
+
+`iq ≤ 1` for every convex body is the isoperimetric inequality; it is NOT proved (not in Mathlib).
+-/
+
+/-- **similarity invariance** of `tau`, `asphericity`, `iq` (3-D) and `iq` (2-D): a uniform rescaling
+by `k ≠ 0` (`M → kM`, `S → k²S`, `V → k³V`, `A → k²A`, `P → kP`) leaves them unchanged -/
+theorem descriptors_similarity (M S V A P k : ℝ) (hk : k ≠ 0) :
+    CP.tauOf (k * M) (S * k ^ 2) = CP.tauOf M S ∧
+    CP.asphericityOf (k * M) (S * k ^ 2) (V * k ^ 3) = CP.asphericityOf M S V ∧
+    Shape3D.iq (V * k ^ 3) (S * k ^ 2) = Shape3D.iq V S ∧
+    Shape2D.iq (A * k ^ 2) (P * k) = Shape2D.iq A P :=
+  ⟨tauOf_scale M S k hk, asphericityOf_scale M S V k hk, iq3_scale V S k hk, iq2_scale A P k hk⟩
+
+/-- the same through `ConvexPolyhedron._rescale(k)` on the core record (vertices × k, `_volume × k³`,
+`_area × k²`, normals and faces kept): `mean_curvature × k`, the three descriptors unchanged,
+errors preserved -/
+theorem descriptors_rescale_core (c : Core ℝ) (k : ℝ) (hk : 0 < k) :
+    CP.meanCurvature (c.rescale k) = (CP.meanCurvature c).map (k * ·) ∧
+    CP.tau (c.rescale k) = CP.tau c ∧ CP.asphericity (c.rescale k) = CP.asphericity c ∧
+    CP.iq (c.rescale k) = CP.iq c :=
+  descriptors_rescale c k hk
+
+/-- **isoperimetric inequality for boxes** (AM–GM): `IQ ≤ π/6 < 1` -/
+theorem iq_box_le_one (a b c : ℝ) (ha : 0 < a) (hb : 0 < b) (hc : 0 < c) :
+    Shape3D.iq (a * b * c) (2 * (a * b + b * c + c * a)) ≤ Real.pi / 6 ∧
+    Shape3D.iq (a * b * c) (2 * (a * b + b * c + c * a)) < 1 :=
+  ⟨iq_box_le a b c ha hb hc, iq_box_lt_one a b c ha hb hc⟩
+
+/-- **isoperimetric inequality for rectangles**: `IQ ≤ π/4` -/
+theorem iq2_rect_le_one (a b : ℝ) (ha : 0 < a) (hb : 0 < b) :
+    Shape2D.iq (a * b) (2 * (a + b)) ≤ Real.pi / 4 := iq2_rect_le a b ha hb
+
+/-- **isoperimetric inequality for regular polygons** (`x = π/n`, area `n/2 R² sin 2x`, perimeter
+`2nR sin x`): `IQ = x / tan x ≤ 1` -/
+theorem iq2_regular_polygon_le_one (n R x : ℝ) (hn : 0 < n) (hR : 0 < R) (hx0 : 0 < x)
+    (hx1 : x < Real.pi / 2) (hnx : n * x = Real.pi) :
+    Shape2D.iq (n / 2 * R ^ 2 * Real.sin (2 * x)) (2 * n * R * Real.sin x) ≤ 1 :=
+  iq2_regular_le_one n R x hn hR hx0 hx1 hnx
+
+example : Shape2D.iq (4 / 2 * 1 ^ 2 * Real.sin (2 * (Real.pi / 4))) (2 * 4 * 1 * Real.sin (Real.pi / 4)) ≤ 1 :=
+  iq2_regular_polygon_le_one 4 1 (Real.pi / 4) (by norm_num) one_pos (by have := Real.pi_pos; positivity)
+    (by have := Real.pi_pos; linarith) (by ring)
+
+/-- **rounding keeps the planar isoperimetric deficit** `P² − 4πA`; hence the rounded polygon
+satisfies `iq ≤ 1` exactly when its core does -/
+theorem spheropolygon_isoperimetric (A P r : ℝ) (hP : 0 < P) (hr : 0 ≤ r) :
+    (SteinerSpec.steinerPerimeter2 P r) ^ 2 - 4 * Real.pi * SteinerSpec.steinerArea2 A P r
+        = P ^ 2 - 4 * Real.pi * A ∧
+    (Shape2D.iq (SteinerSpec.steinerArea2 A P r) (SteinerSpec.steinerPerimeter2 P r) ≤ 1 ↔
+      Shape2D.iq A P ≤ 1) :=
+  ⟨isoperimetric_deficit_rounding A P r, iq2_rounded_le_one_iff A P r hP hr⟩
+
+/-! ### (4) histories: radius setter, `_rescale`, size setters in any order -/
+
+/-- **every history of a spheropolyhedron** (radius / volume / surface-area / mean-curvature setters
+and `_rescale(k > 0)` in any order and number): if it runs through, the object reached is the initial
+core uniformly rescaled by some `K > 0` with a radius `≥ 0`; its `mean_curvature` is `K·M₀`, its three
+measures are the Steiner polynomials of ITS CURRENT core, and `tau`, `asphericity`, `iq` of the core
+are those of the initial core. -/
+theorem sphero_history_steiner (s0 s : SpheroPolyhedron.State ℝ) (h0 : SpheroPolyhedron.Good s0)
+    (ops : List (SpheroPolyhedron.Op ℝ)) (hv : ∀ op ∈ ops, op.Valid) (hrun : s0.run ops = .ok s) :
+    ∃ K M0, 0 < K ∧ 0 ≤ s.radius ∧ s.core = s0.core.rescale K ∧
+      CP.meanCurvature s0.core = .ok M0 ∧ CP.meanCurvature s.core = .ok (K * M0) ∧
+      SpheroPolyhedron.volume s.core s.radius
+        = .ok (SteinerSpec.statedVolume s.core.volume s.core.area (K * M0) s.radius) ∧
+      SpheroPolyhedron.surfaceArea s.core s.radius
+        = .ok (SteinerSpec.statedArea s.core.area (K * M0) s.radius) ∧
+      SpheroPolyhedron.meanCurvature s.core s.radius
+        = .ok (SteinerSpec.statedMeanCurvature (K * M0) s.radius) ∧
+      s.core.volume = s0.core.volume * K ^ 3 ∧ s.core.area = s0.core.area * K ^ 2 ∧
+      CP.tau s.core = CP.tau s0.core ∧ CP.asphericity s.core = CP.asphericity s0.core ∧
+      CP.iq s.core = CP.iq s0.core := by
+  obtain ⟨K, hK, hc, hg⟩ := SpheroPolyhedron.run_good ops s0 s h0 hv hrun
+  obtain ⟨es0, hes0, _⟩ := h0.es
+  have hM0 : CP.meanCurvature s0.core = .ok (CP.meanCurvatureOf es0) := by
+    unfold CP.meanCurvature; rw [hes0]; rfl
+  obtain ⟨d1, d2, d3, d4⟩ := descriptors_rescale_core s0.core K hK
+  have hM : CP.meanCurvature s.core = .ok (K * CP.meanCurvatureOf es0) := by
+    rw [hc, d1, hM0]; rfl
+  obtain ⟨v1, v2, v3⟩ := sphero_steiner_core s.core s.radius _ hM
+  refine ⟨K, _, hK, hg.rad, hc, hM0, hM, v1, v2, v3, ?_, ?_, ?_, ?_, ?_⟩
+  · rw [hc]; simp only [Core.rescale, Scalar.cube]; ring
+  · rw [hc]; simp only [Core.rescale, Scalar.sqr]; ring
+  · rw [hc, d2]
+  · rw [hc, d3]
+  · rw [hc, d4]
+
+/-- **every history of a spheropolygon** (radius / area / perimeter setters and `_rescale(k > 0)`): the
+stored vertices are the initial ones × `K > 0`; the sign split of `signed_area` is the one of the
+INITIAL core (either orientation), and area / perimeter are the planar Steiner polynomials of the
+current core `(|a₀| K², K P₀)`.  `polyArea` is `Polygon.signed_area` as a function of the stored
+vertices, assumed homogeneous of degree 2 (`Poly2.signedArea_scale` for the model of C04). -/
+theorem spheropolygon_history_sign (polyArea : List (V3 ℝ) → ℝ) (hhom : SpheroPolygon.Hom2 polyArea)
+    (s0 s : SpheroPolygon.State ℝ) (h0 : SpheroPolygon.Good polyArea s0)
+    (ops : List (SpheroPolygon.Op ℝ)) (hv : ∀ op ∈ ops, op.Valid) (hrun : s0.run polyArea ops = .ok s) :
+    ∃ K, 0 < K ∧ 0 ≤ s.radius ∧ s.vertices = s0.vertices.map (scaleV K) ∧
+      s.signedArea polyArea =
+        (if polyArea s0.vertices < 0 then
+          -(SteinerSpec.steinerArea2 (-(polyArea s0.vertices) * K ^ 2) (K * Polygon.perimeter s0.vertices) s.radius)
+        else SteinerSpec.steinerArea2 (polyArea s0.vertices * K ^ 2) (K * Polygon.perimeter s0.vertices) s.radius) ∧
+      s.area polyArea
+        = SteinerSpec.steinerArea2 (|polyArea s0.vertices| * K ^ 2) (K * Polygon.perimeter s0.vertices) s.radius ∧
+      s.perimeter = SteinerSpec.steinerPerimeter2 (K * Polygon.perimeter s0.vertices) s.radius := by
+  obtain ⟨K, hK, hvs, hg⟩ := SpheroPolygon.run_good hhom ops s0 s h0 hv hrun
+  have ha : polyArea s.vertices = K ^ 2 * polyArea s0.vertices := by rw [hvs, hhom]
+  have hP : Polygon.perimeter s.vertices = K * Polygon.perimeter s0.vertices := by
+    rw [hvs, SpheroPolygon.perimeter_scale, abs_of_pos hK]
+  have hK2 : 0 < K ^ 2 := by positivity
+  refine ⟨K, hK, hg.rad, hvs, ?_, ?_, ?_⟩
+  · unfold SpheroPolygon.State.signedArea
+    rw [spheropolygon_signed_area_steiner, ha, hP]
+    by_cases hneg : polyArea s0.vertices < 0
+    · rw [if_pos (by nlinarith), if_pos hneg]; congr 2; ring
+    · rw [if_neg (by rw [not_lt] at hneg ⊢; positivity), if_neg hneg]; congr 1; ring
+  · unfold SpheroPolygon.State.area
+    rw [spheropolygon_area_steiner _ _ _ hg.rad, ha, hP, abs_mul, abs_of_pos hK2]; congr 1; ring
+  · unfold SpheroPolygon.State.perimeter
+    rw [spheropolygon_perimeter, hP]
+
+/-- the same with `polygon.signed_area` := the model of `Polygon.signed_area` of C04 (`Poly2.signedArea`,
+any stored normal `n`): its homogeneity is PROVED (`poly2_signedArea_hom`), so no hypothesis on the core
+area function remains — this is the function the driver runs in the history correspondence op
+`c11.hist2` -/
+theorem spheropolygon_history_sign_c04 (n : V3 ℝ) (s0 s : SpheroPolygon.State ℝ)
+    (h0 : SpheroPolygon.Good (fun vs => Poly2.signedArea vs n) s0)
+    (ops : List (SpheroPolygon.Op ℝ)) (hv : ∀ op ∈ ops, op.Valid)
+    (hrun : s0.run (fun vs => Poly2.signedArea vs n) ops = .ok s) :
+    ∃ K, 0 < K ∧ 0 ≤ s.radius ∧ s.vertices = s0.vertices.map (scaleV K) ∧
+      (Poly2.signedArea s0.vertices n < 0 → s.signedArea (fun vs => Poly2.signedArea vs n) < 0) ∧
+      (0 < Poly2.signedArea s0.vertices n → 0 < s.signedArea (fun vs => Poly2.signedArea vs n)) ∧
+      s.area (fun vs => Poly2.signedArea vs n)
+        = SteinerSpec.steinerArea2 (|Poly2.signedArea s0.vertices n| * K ^ 2)
+            (K * Polygon.perimeter s0.vertices) s.radius ∧
+      s.perimeter = SteinerSpec.steinerPerimeter2 (K * Polygon.perimeter s0.vertices) s.radius := by
+  obtain ⟨K, hK, hr, hvs, hsg, har, hpe⟩ :=
+    spheropolygon_history_sign _ (SpheroPolygon.poly2_signedArea_hom n) s0 s h0 ops hv hrun
+  have hpi := Real.pi_pos
+  have hP := h0.per
+  have hK2 : 0 < K ^ 2 := by positivity
+  have hrest : 0 ≤ K * Polygon.perimeter s0.vertices * s.radius + Real.pi * (s.radius * s.radius) := by
+    have := hP.le; positivity
+  refine ⟨K, hK, hr, hvs, ?_, ?_, har, hpe⟩
+  · intro hneg
+    rw [hsg, if_pos hneg]
+    unfold SteinerSpec.steinerArea2
+    simp only [Scalar.pi_real]
+    nlinarith
+  · intro hpos
+    rw [hsg, if_neg (not_lt.mpr hpos.le)]
+    unfold SteinerSpec.steinerArea2
+    simp only [Scalar.pi_real]
+    nlinarith
+
+/-! non-vacuity of the history theorems: the rounded cube `[-1,1]³`, `r = ½`, after
+`volume = 20; radius = 0.3; surface_area = 3`, and a clockwise spherosquare -/
+
+theorem c11_cube_wf : c11_cubeCore.WellFormed := by
+  intro f hf
+  simp only [c11_cubeCore, List.mem_cons, List.not_mem_nil, or_false] at hf
+  rcases hf with rfl | rfl | rfl | rfl | rfl | rfl | rfl | rfl | rfl | rfl | rfl | rfl <;>
+    simp [c11_cubeCore]
+
+theorem c11_cube_edgeTerms : CP.edgeTerms c11_cubeCore = .ok c11_cubeEdges := by
+  have he : c11_cubeCore.fi.map c11_cubeCore.edgeOf = c11_cubeEdges := by
+    simp only [c11_cubeCore, Core.edgeOf, c11_cubeEdges, List.map_cons, List.map_nil, List.replicate,
+      dihedral_arccos, V3.norm, V3.normSq, V3.dot, V3.sub_x, V3.sub_y, V3.sub_z, Scalar.sqrt_real]
+    norm_num [List.getD, sqrt4, Real.arccos_zero]
+    ring
+  rw [edgeTerms_ok _ c11_cube_wf, he]
+
+theorem c11_cube_good : SpheroPolyhedron.Good ⟨c11_cubeCore, 1 / 2⟩ := by
+  refine ⟨⟨c11_cubeEdges, c11_cube_edgeTerms, ?_⟩, by norm_num [c11_cubeCore], by norm_num [c11_cubeCore],
+    by norm_num⟩
+  have := Real.pi_pos
+  simp only [c11_cubeEdges, edgeSumR, List.replicate, List.map_cons, List.map_nil, List.sum_cons,
+    List.sum_nil]
+  nlinarith
+
+example (s : SpheroPolyhedron.State ℝ)
+    (h : (⟨c11_cubeCore, 1 / 2⟩ : SpheroPolyhedron.State ℝ).run
+      [.setVolume 20, .setRadius (3 / 10), .setSurfaceArea 3] = .ok s) :
+    ∃ K M0, 0 < K ∧ 0 ≤ s.radius ∧ s.core = c11_cubeCore.rescale K ∧ CP.meanCurvature c11_cubeCore = .ok M0 ∧
+      SpheroPolyhedron.volume s.core s.radius
+        = .ok (SteinerSpec.statedVolume s.core.volume s.core.area (K * M0) s.radius) := by
+  obtain ⟨K, M0, h1, h2, h3, h4, _, h6, _⟩ :=
+    sphero_history_steiner _ s c11_cube_good _ (by intro op hop; cases op <;> simp_all [SpheroPolyhedron.Op.Valid]) h
+  exact ⟨K, M0, h1, h2, h3, h4, h6⟩
+
+/-- a clockwise spherosquare (`a₀ = −4`) stays clockwise through `area = 10; radius = 1; perimeter = 3` -/
+theorem c11_squareCw_good : SpheroPolygon.Good SpheroPolygon.xyArea ⟨c11_squareCw, 1 / 2⟩ := by
+  refine ⟨?_, ?_, by norm_num⟩
+  · simp [SpheroPolygon.xyArea, c11_squareCw, roll]
+  · simp only [Polygon.perimeter, c11_squareCw, roll, List.cons_append, List.nil_append,
+      List.zipWith_cons_cons, List.zipWith_nil_right, Scalar.sum_real, List.sum_cons, List.sum_nil,
+      V3.norm, V3.normSq, V3.dot, V3.sub_x, V3.sub_y, V3.sub_z, Scalar.sqrt_real]
+    norm_num [sqrt4]
+
+example (s : SpheroPolygon.State ℝ)
+    (h : (⟨c11_squareCw, 1 / 2⟩ : SpheroPolygon.State ℝ).run SpheroPolygon.xyArea
+      [.setArea 10, .setRadius 1, .setPerimeter 3] = .ok s) :
+    s.signedArea SpheroPolygon.xyArea < 0 := by
+  obtain ⟨K, hK, hr, _, hs, _⟩ := spheropolygon_history_sign _ SpheroPolygon.xyArea_hom _ s c11_squareCw_good _
+    (by intro op hop; cases op <;> simp_all [SpheroPolygon.Op.Valid]) h
+  have ha : SpheroPolygon.xyArea c11_squareCw = -4 := by
+    simp [SpheroPolygon.xyArea, c11_squareCw, roll]; norm_num
+  have hP := c11_squareCw_good.per
+  simp only [ha] at hs
+  rw [hs, if_pos (by norm_num)]
+  unfold SteinerSpec.steinerArea2
+  simp only [Scalar.pi_real]
+  have := Real.pi_pos
+  have : 0 < K ^ 2 := by positivity
+  have : 0 ≤ K * Polygon.perimeter c11_squareCw * s.radius := by
+    have := hP.le; positivity
+  have : 0 ≤ Real.pi * (s.radius * s.radius) := by positivity
+  nlinarith
 
 end
